@@ -61,15 +61,12 @@ orc_x86_use_long_jumps (OrcX86Target *t, OrcCompiler *c)
 static void
 orc_x86_compiler_max_loop_shift (OrcX86Target *t, OrcCompiler *c)
 {
-  int i;
-  int n = 2;
+  int shift = t->loop_shift (c->max_var_size);
 
-  for (i = 1; i; i++) {
-    if ((t->register_size / c->max_var_size) == n)
-      break;
-    n *= 2;
-  } 
-  c->loop_shift = i;
+  /* An unhandled variable size gives -1: process one element at a time */
+  if (shift < 0)
+    shift = 0;
+  c->loop_shift = shift;
 }
 
 static void
